@@ -60,7 +60,23 @@ impl Payload for Plain {
     type Ctx = ();
     const TRACKS_DROPS: bool = false;
     fn pretty(arena: &indextree::Arena<Self>, id: indextree::NodeId) -> Option<[String; 4]> {
+        use std::fmt::Write as _;
+        // a sink that gives up after a few bytes: a print that ends in Err must not influence later prints
+        struct Limited(usize);
+        impl std::fmt::Write for Limited {
+            fn write_str(&mut self, s: &str) -> std::fmt::Result {
+                if s.len() > self.0 {
+                    self.0 = 0;
+                    return Err(std::fmt::Error);
+                }
+                self.0 -= s.len();
+                Ok(())
+            }
+        }
         let p = id.debug_pretty_print(arena);
+        // short single-line renderings ("v12"), so that the sink gives up somewhere below the root
+        let _ = write!(Limited(5 + (usize::from(id) * 7) % 60), "{}", p);
+        let _ = write!(Limited(40 + (usize::from(id) * 13) % 300), "{:#?}", p);
         Some([format!("{}", p), format!("{:#}", p), format!("{:?}", p), format!("{:#?}", p)])
     }
     #[cfg(feature = "par_iter")]
